@@ -1,12 +1,19 @@
 """C14 -- cache containers conform to their replacement-policy model (DESIGN.md section 4, C14).
 
-Four campaigns
+Campaigns
   bfs         explicit-state exploration (model x implementation) to closure: LRUCache, SimpleCache, DiskCache
   bfs-hybrid  the same for HybridCache, to a stated depth (its access counters are unbounded)
   seq         Hypothesis-drawn operation lists on all four classes, shared / non-shared, DiskCache reopen
+  mp          the seq oracle with the operations issued one at a time from 2-3 real (forked) processes that share
+              one real-Manager-backed cache (deterministic: no two operations overlap)
   interleave  shared mode from several "processes": fake Manager (every proxy call is a scheduling point),
               harness threads, baton scheduler; the schedule is part of the drawn data
   ilv-sys     the same harness, all schedules of small fixed programs (depth-first over the choice points)
+
+Confirmed deviations keep their own buckets (bfs: LRUCache:put-resident*, DiskCache:put-mem-resident*; seq/mp:
+*:after-lru-layer-reput, DiskCache:put-evict-multiple:raised:FileNotFoundError..., HybridCache:put-full:raised:
+AttributeError@HybridCache._expire; interleave: *:get-raised:KeyError@*.get:interleaved, LRUCache:reput-history) and the
+generators carry flags (avoid, avoid_multi, distinct) that construct around them so the other oracles stay sharp.
 """
 
 from __future__ import annotations
@@ -20,14 +27,14 @@ import queue
 import shutil
 import tempfile
 import threading
-import time
 from collections import OrderedDict
+from contextlib import nullcontext
 from pathlib import Path
 
 from hypothesis import strategies as st
 
 from vlib import boot
-from vlib.core import Campaign, Outcome, exc_bucket, exc_detail
+from vlib.core import Campaign, Outcome, exc_detail
 
 import pipefunc.cache as pc
 from pipefunc.cache import DiskCache, HybridCache, LRUCache, SimpleCache
@@ -48,12 +55,15 @@ RULE = (
     "op lists (<= 40 ops, 2-8 keys of mixed types, values str/int/list) for all four classes, shared in ~15 % of cases "
     "(real multiprocessing.Manager), allow_cloudpickle on/off, DiskCache with/without in-memory LRU, reopened with the "
     "same / a smaller / no max_size; each result, len and the membership vector are compared with the model after "
-    "every op, followed by a final get sweep and an eviction-order probe. (interleave / ilv-sys) 2-3 threads with 1-4 "
+    "every op, followed by a final get sweep and an eviction-order probe; half of the cases never re-put a key that is "
+    "resident in an LRU layer / never shrink below the number of files (construction around confirmed deviations). "
+    "(mp) the same oracle on shared LRUCache/HybridCache/DiskCache with every operation routed to one of 2-3 forked "
+    "child processes (inherited object or pickle round trip), one operation in flight at a time. (interleave / ilv-sys) 2-3 threads with 1-4 "
     "ops on one shared LRUCache/HybridCache built on the fake Manager; drawn or exhaustively enumerated schedules; "
     "oracle: no op raises, a get returns None or a value put for that key, at quiescence len <= max_size, len == number "
     "of keys present, every present value was put for its key, bookkeeping views agree, and a sequential eviction probe "
     "succeeds. Non-trivial = (bfs) configuration whose exploration contains a re-put of a resident key at capacity and "
-    "a get of an evicted key; (seq) history with a re-put of a resident key at capacity or an eviction followed by a "
+    "an eviction by a new key (every get/in is explored from every state); (seq) history with a re-put of a resident key at capacity or an eviction followed by a "
     "get of the victim; (interleave) >= 2 context switches away from a thread that is inside get/put; (ilv-sys) a "
     "program with >= 2 distinct schedules. Distinct by sha1 of the case."
 )
@@ -74,6 +84,10 @@ ASSUMPTIONS = [
     "(the next proxy call is); DiskCache is not part of the interleaving campaigns (file operations are not proxied)",
     "the bound-state copy used for exploration copies the instance __dict__ (the classes refuse copy/pickle when not shared)",
     "concurrent oracle judges only exceptions, thin-air values and the quiescent state, not transient observations",
+    "harness threads come from a per-process pool (thread creation costs ~4 ms here); completion of every job is "
+    "awaited with a time-out (the equivalent of join) and a scheduler time-out is a harness error, not a violation",
+    "the mp campaign serialises the operations (deterministic replay); truly concurrent real-process runs are not part "
+    "of the check (a 4-process stress run was used once to confirm that the fake Manager's get race is real)",
 ]
 
 KEYS3 = ["a", "b", "c"]
@@ -140,6 +154,11 @@ class LRUModel:
     def key(self):
         return ("lru", tuple(self.d.items()))
 
+    def copy(self):
+        new = LRUModel(self.max_size)
+        new.d = OrderedDict(self.d)
+        return new
+
 
 class SimpleModel:
     max_size = None
@@ -164,6 +183,11 @@ class SimpleModel:
 
     def key(self):
         return ("simple", tuple(sorted(self.d.items(), key=repr)))
+
+    def copy(self):
+        new = SimpleModel()
+        new.d = dict(self.d)
+        return new
 
 
 class DiskModel:
@@ -208,6 +232,11 @@ class DiskModel:
 
     def key(self):
         return ("disk", tuple(self.files.items()), None if self.mem is None else tuple(self.mem.d.items()))
+
+    def copy(self):
+        new = DiskModel(self.max_size, 0, files=self.files)
+        new.mem = None if self.mem is None else self.mem.copy()
+        return new
 
     @property
     def lru_cache(self):  # same attribute name as the implementation, for the shared observation code
@@ -254,6 +283,11 @@ class HybridModel:
 
     def key(self):
         return ("hybrid", tuple(sorted((k, tuple(x)) for k, x in self.e.items())))
+
+    def copy(self):
+        new = HybridModel(self.max_size, self.aw, self.dw)
+        new.e = {k: list(x) for k, x in self.e.items()}
+        return new
 
     @property
     def access_counts(self):
@@ -365,17 +399,35 @@ def is_model(x) -> bool:
     return isinstance(x, MODELS)
 
 
+_ATOMS = (str, int, float, bool, bytes, tuple, type(None))
+
+
+def _copy_value(v):
+    return v if type(v) in _ATOMS else copy.deepcopy(v)
+
+
 def clone_impl(c):
-    """State copy of a non-shared cache object (shares a DiskCache's directory; see clone_full)."""
+    """State copy of a non-shared cache object (shares a DiskCache's directory; see clone_full).
+
+    Containers are copied, immutable leaves (and Path / nullcontext attributes) are shared -- same result as a
+    deepcopy of the instance __dict__, which the classes themselves refuse when not shared."""
     new = object.__new__(type(c))
     for k, v in c.__dict__.items():
-        new.__dict__[k] = clone_impl(v) if isinstance(v, pc._CacheBase) else copy.deepcopy(v)
+        if isinstance(v, pc._CacheBase):
+            v = clone_impl(v)
+        elif type(v) is dict:
+            v = {kk: _copy_value(x) for kk, x in v.items()}
+        elif type(v) is list:
+            v = [_copy_value(x) for x in v]
+        elif type(v) not in _ATOMS and not isinstance(v, (Path, nullcontext)):
+            v = copy.deepcopy(v)
+        new.__dict__[k] = v
     return new
 
 
 def clone_full(x, env: Env):
     if is_model(x):
-        return copy.deepcopy(x)
+        return x.copy()
     new = clone_impl(x)
     if isinstance(x, DiskCache):
         d = env.newdir()
@@ -386,7 +438,7 @@ def clone_full(x, env: Env):
 
 def clone_readonly(x):
     """Copy good enough for get/in/len (which never write files)."""
-    return copy.deepcopy(x) if is_model(x) else clone_impl(x)
+    return x.copy() if is_model(x) else clone_impl(x)
 
 
 def disk_view(x, env: Env):
@@ -440,7 +492,19 @@ def observe_lru(x, keys, env):
     return o
 
 
-def observe(x, keys, env):
+def dir_fingerprint(d):
+    """Names and contents of the cache files in ctime order -- everything a second cache on the directory can see."""
+    items = []
+    with os.scandir(d) as it:
+        for e in it:
+            if e.name.endswith(".pkl"):
+                with open(e.path, "rb") as f:
+                    items.append((e.stat().st_ctime_ns, e.name, f.read()))
+    items.sort()
+    return [(n, b) for _, n, b in items]
+
+
+def observe(x, keys, env, skip_disk=False):
     if isinstance(x, (LRUCache, LRUModel)):
         return {"top": observe_lru(x, keys, env)}
     if isinstance(x, (SimpleCache, SimpleModel)):
@@ -463,7 +527,8 @@ def observe(x, keys, env):
     mem = x.lru_cache if (is_model(x) or x.with_lru_cache) else None
     if mem is not None:
         out["mem"] = observe_lru(mem, keys, env)
-    out["disk"] = observe_lru(disk_view(x, env), keys, env)
+    if not skip_disk:
+        out["disk"] = observe_lru(disk_view(x, env), keys, env)
     return out
 
 
@@ -671,32 +736,38 @@ def body_bfs(cfg) -> Outcome:
     n_trans = n_states = 0
     seen_classes: set = set()
     reported: set = set()
-    saw_evicted_get = False
     try:
         model0, impl0 = make_pair(cfg, env)
         alphabet = bfs_alphabet(cfg)
         seen = {model0.key()}
         n_states = 1
         frontier = [(model0, impl0, [])]
-        ever_evicted_states = 0
         depth = 0
-        closed = False
         while frontier and depth < depth_limit:
             nxt = []
             for model, impl, path in frontier:
                 for op in alphabet:
                     n_trans += 1
-                    m2 = copy.deepcopy(model)
+                    m2 = model.copy()
                     i2 = clone_full(impl, env)
                     mark = env.mark()
                     oc = opclass(model, op)
                     seen_classes.add(oc["top"])
                     where = fmt_path(path + [op])
                     local = Outcome()
+                    # DiskCache, read-only op: if the directory (names, contents, ctime order) is untouched, its file
+                    # layer is the one already compared in the predecessor state and is not probed again
+                    fp0 = dir_fingerprint(i2.cache_dir) if isinstance(i2, DiskCache) and op[0] in ("get", "in", "len") else None
                     ok = apply_checked(local, name, m2, i2, op, KEYS3, env, where)
+                    skip_disk = False
+                    if ok and fp0 is not None:
+                        if dir_fingerprint(i2.cache_dir) != fp0 or m2.files != model.files:
+                            local.fail(f"{name}:{oc['top']}:directory-changed-by-read", f"after {where}")
+                            ok = False
+                        skip_disk = True
                     if ok:
-                        want = observe(m2, KEYS3, env)
-                        got = observe(i2, KEYS3, env)
+                        want = observe(m2, KEYS3, env, skip_disk)
+                        got = observe(i2, KEYS3, env, skip_disk)
                         diff = first_difference(want, got)
                         if diff is not None:
                             layer, sym, text = diff
@@ -729,11 +800,13 @@ def body_bfs(cfg) -> Outcome:
             frontier = nxt
             depth += 1
         closed = not frontier
-        saw_evicted_get = "get-miss" in seen_classes
         out.units = n_trans
-        out.nontrivial = any("resident" in c and ("evict" in c or "full" in c) for c in seen_classes) and saw_evicted_get
+        out.nontrivial = any("resident" in c and ("evict" in c or "full" in c) for c in seen_classes) and any(
+            "new" in c and ("evict" in c or "full" in c) for c in seen_classes
+        )
         out.labels = [
             f"{cfg['cls']}:{'closure' if closed else 'depth-' + str(depth)}",
+            f"exact:{_cfg_id(cfg)}:states={n_states},transitions={n_trans},depth={depth}",
             f"{cfg['cls']}:states~{_bucket_n(n_states)}",
             f"{cfg['cls']}:transitions~{_bucket_n(n_trans)}",
         ] + [f"{cfg['cls']}:class:{c}" for c in sorted(seen_classes)]
@@ -1730,10 +1803,10 @@ def enum_ilv_sys(tier):
             for m in (1, 2):
                 for a, b in itertools.combinations_with_replacement(two, 2):
                     yield {"cls": cls, "max_size": m, "prelude": [["put", 0]], "threads": [a, b], "distinct": False,
-                           "cap": 150 if tier == "quick" else 3000}  # fmt: skip
+                           "cap": 150 if tier == "quick" else 2000}  # fmt: skip
                 for a, b, c3 in itertools.combinations_with_replacement([["put", 1], ["get", 0], ["put", 2], ["clear"]], 3):
                     yield {"cls": cls, "max_size": m, "prelude": [["put", 0]], "threads": [[a], [b], [c3]], "distinct": False,
-                           "cap": 150 if tier == "quick" else 3000}  # fmt: skip
+                           "cap": 150 if tier == "quick" else 2000}  # fmt: skip
 
     return gen
 
@@ -1778,12 +1851,12 @@ def campaigns(tier):
         Campaign("bfs-hybrid", body_bfs, enumerate=enum_bfs_hybrid(tier), quick=0, thorough=0, exhaustive=True, shards_quick=9,
                  shards_thorough=9,
                  describe="HybridCache max_size 1-3 x 3 weightings, every history up to depth 7 (quick) / 10 (thorough) modulo model state"),
-        Campaign("seq", body_seq, seq_cases(), quick=2400, thorough=60000,
+        Campaign("seq", body_seq, seq_cases(), quick=2400, thorough=40000,
                  describe="drawn op lists on all four classes, shared (real Manager) ~15 %, DiskCache reopen"),
-        Campaign("mp", body_seq, mp_cases(), quick=160, thorough=4000,
+        Campaign("mp", body_seq, mp_cases(), quick=160, thorough=2400,
                  describe="seq oracle with the operations issued one at a time from 2-3 real processes (forked, or fork + pickle "
                           "round trip) on a real Manager-backed cache"),
-        Campaign("interleave", body_interleave, ilv_cases(), quick=8000, thorough=200000,
+        Campaign("interleave", body_interleave, ilv_cases(), quick=8000, thorough=120000,
                  describe="drawn programs and schedules on the fake Manager"),
         Campaign("ilv-sys", body_ilv_sys, enumerate=enum_ilv_sys(tier), quick=0, thorough=0, exhaustive=False,
                  describe="all schedules (up to a cap) of small two/three-thread programs"),
